@@ -74,10 +74,14 @@ def translate_checked(utils, tr, p, mutated, label):
     return txt
 
 
-def stages_of(lang, sd, TE, TO, utils, TR, mutated, vid0, pkgs=("src.a", "src.b"), gen_timeout=10):
+def stages_of(lang, sd, TE, TO, utils, TR, mutated, vid0, pkgs=("src.a", "src.b"), gen_timeout=10, build=None):
     """generate -> erase -> overwrite on ONE program object with ONE translator object, the
     package reassigned before the incorrect program: what hephaestus.gen_program does"""
-    p = P.with_timeout(gen_timeout, progs.generate, lang, sd)
+    if build is not None:
+        utils.random.r.seed(sd)
+        p = build(lang, sd)
+    else:
+        p = P.with_timeout(gen_timeout, progs.generate, lang, sd)
     tr = TR[lang](pkgs[0], OPTS)
     out = []
     for stage in ("generated", "erased", "overwritten"):
@@ -122,6 +126,9 @@ def case_files(prefix, variants, per=3, extra_first=""):
     return files, index
 
 
+directed_inplace = [0]
+
+
 def run(tier, seed, replay=None):
     rep = C.Report("C11", tier, seed, "proof")
     C.setup_repo_import(seed, ["hephaestus.py", "--iterations", "1", "--language", "kotlin"])
@@ -160,6 +167,17 @@ def run(tier, seed, replay=None):
                 gen_timeouts.append(("kotlin", sd))
             except Exception as e:      # noqa: BLE001
                 crashes.append(("kotlin", sd, "%s: %s" % (type(e).__name__, str(e)[:120])))
+        # directed small programs (harness/handprogs.py) in which type overwriting mostly rewrites, IN PLACE, an explicit type
+        # argument of a constructor call or a declared type that the same translator object has already printed
+        import handprogs
+        for s in range(nk if tier == "quick" else 40):
+            sd = C.sub_seed(seed, "c11hand", "kotlin", s) % (2 ** 31)
+            try:
+                variants.extend(stages_of("kotlin", sd, TypeErasure, TypeOverwriting, utils, TR, mutated, len(variants),
+                                          build=handprogs.build))
+                directed_inplace[0] += 1
+            except Exception as e:      # noqa: BLE001
+                crashes.append(("kotlin", sd, "directed %s: %s" % (type(e).__name__, str(e)[:120])))
     t_gen = time.time() - t0
 
     # ------------------------------------------------------------------ Kotlin: histories on the implementation
